@@ -20,7 +20,7 @@ Id(scheme, lin, count) ==
   CASE scheme = "contiguous" -> lin + 1
     [] scheme = "gaps"       -> 7 + 10 * lin
     [] scheme = "reversed"   -> count - lin
-    [] scheme = "scattered"  -> ((lin * 7) % 31) * 3 + 5               \* injective for count <= 31
+    [] scheme = "scattered"  -> ((lin * 7) % 37) * 3 + 5               \* injective for count <= 37
     [] scheme = "zero_based" -> lin
     [] scheme = "offset"     -> lin + 101                              \* contiguous, ascending, but not starting at 1
 LatticeNodes(d) == {<<i, j, k>> : i \in 0..d[1], j \in 0..d[2], k \in 0..d[3]}
